@@ -19,6 +19,7 @@ import (
 // formatted text, re-parse and compare trees, run both and compare traces.
 
 type c06Ctx struct {
+	rt      *rtCtx
 	model   *Model
 	r       *Result
 	runs    int
@@ -95,6 +96,7 @@ func c06Check(c *c06Ctx, in fmtInput) {
 		r.Violate(Violation{Kind: "property", Key: "formatted-text-rejected", Detail: err.Error(), Input: src, Impl: formatted})
 		return
 	}
+	c06RoundTrip(c.rt, r, src, formatted, prog, prog2)
 	t1, e1 := ExportProgram(prog)
 	t2, e2 := ExportProgram(prog2)
 	if e1 == nil && e2 == nil && dropNops(t1).String() != dropNops(t2).String() {
@@ -189,6 +191,13 @@ func runC06(cfg Config, r *Result) {
 		"(plain / decorated with comments at line ends and on own lines, blank-line runs, multi-line array and map literals with comments / widened horizontal white space / stray tokens after `end`); " +
 		"only inputs accepted by parser.Parse count; non-trivial = at least 6 words and a block, a comment or a multi-line literal; distinct = distinct source text"
 	c := &c06Ctx{model: model, r: r, maxRuns: cfg.N(700, 6000)}
+	if rtm, err := StartModel("fmtparse"); err == nil {
+		defer rtm.Close()
+		c.rt = &rtCtx{model: rtm, max: cfg.N(12000, 150000)}
+		defer rtNote(r, c.rt)
+	} else {
+		r.Violate(Violation{Kind: "correspondence", Key: "model-start", Detail: "fmtparse: " + err.Error()})
+	}
 	if cfg.Replay != "" {
 		if b, err := os.ReadFile(cfg.Replay); err == nil {
 			var v struct {
